@@ -7,7 +7,7 @@ from lxml import etree
 from harness.core import Result
 from harness import xsdgen, xmlcanon, enginea, valgen
 
-LEAN_MODULES = ["ZeepProofs.C01", "ZeepProofs.C01Choice", "ZeepProofs.C01Repeat", "ZeepProofs.C01Values", "ZeepProofs.C01All", "ZeepProofs.C01Nested", "ZeepProofs.C01ChoiceRepeat", "ZeepProofs.C01General"]
+LEAN_MODULES = ["ZeepProofs.C01", "ZeepProofs.C01Choice", "ZeepProofs.C01Repeat", "ZeepProofs.C01Values", "ZeepProofs.C01All", "ZeepProofs.C01Nested", "ZeepProofs.C01ChoiceRepeat", "ZeepProofs.C01General", "ZeepProofs.C01KwChoice"]
 NS = "Zeep.Xsd."
 THEOREMS = [NS + t for t in ("c01_elem_roundtrip", "c01_flat_sequence_roundtrip", "c01_record_roundtrip", "c01_nested_record_roundtrip",
                               "c01_absent_optional_reads_none", "c01_empty_repetition_reads_empty", "c01_k8_counterexample",
@@ -18,13 +18,14 @@ THEOREMS = [NS + t for t in ("c01_elem_roundtrip", "c01_flat_sequence_roundtrip"
                               "member_seq_once", "member_seq_absent", "member_group_once", "c01_record_with_nested_particles_roundtrip",
                               "choiceLoop_picks", "member_choice_repeated", "c01_record_with_repeated_choices_roundtrip",
                               "c01_record_with_repeated_choices_roundtrip_root", "dec_simpleContent", "c01_general_roundtrip", "c01_general_roundtrip_root")] + [
-    "Zeep.Bind." + t for t in ("render_is_reference_serialisation", "c01_values_roundtrip", "serList_trim")]
+    "Zeep.Bind." + t for t in ("render_is_reference_serialisation", "c01_values_roundtrip", "serList_trim")] + [
+    "Zeep.BindKw." + t for t in ("renderRecord_denotes", "c01_kw_choice_roundtrip")]
 LEVEL = "proof"
 MANIFEST = dict(
     engine="A: lean/ZeepModel/Xsd/Serialize.lean + Parse.lean (+ harness/valgen.py, harness/enginea.py)",
     technique="Lean 4 model: reference serialiser of instance trees (serItem) and zeep's greedy deque decoder (parseNode); round-trip theorems "
               "parse (serialise inst) = inst proved by induction for element repetitions, flat sequences and records nested to any depth whose members are elements, choices between elements (taken once, or repeating any number of times - _value_N lists of picks, the same branch also twice in a row, maxOccurs unbounded included), or repeated nested sequences (_value_N: any number of rounds within the bounds, maxOccurs unbounded included); "
-              "value level (ZeepProofs/C01Values.lean): what the binder model renders for an accepted call is the reference serialisation of the instance the arguments denote (mutual induction over every record signature), hence decode (render args) = that instance; "
+              "from a keyword call to the XML and back for records with choices (ZeepProofs/C01KwChoice.lean: the keyword pass and choice rendering of the C12 model composed with the reference serialiser and the decoder - what a call binds and the renderer writes is the reference serialisation of an instance listing the caller's values member by member, and the decoder returns exactly that instance); value level (ZeepProofs/C01Values.lean): what the binder model renders for an accepted call is the reference serialisation of the instance the arguments denote (mutual induction over every record signature), hence decode (render args) = that instance; "
               "differential tie on conforming values generated independently of zeep (construct, render, decode, compare with what was supplied; "
               "model serialisation vs zeep's rendering; model decode vs zeep's decode of the rendered document)",
     text="The model's decoder is proved to invert the model's serialiser on element repetitions with any occurrence bounds, on flat sequences of "
